@@ -17,6 +17,9 @@ pub struct PendingPacket {
     last_fragment_id: u16,
 
     ack_flags: Box<[u64]>,
+
+    // Set for time-sensitive packets: the only flush in which transmission may begin
+    time_sensitive_flush_id: Option<u32>,
 }
 
 impl PendingPacket {
@@ -38,6 +41,20 @@ impl PendingPacket {
             last_fragment_id,
 
             ack_flags: vec![0u64; (num_fragments + 63)/64].into_boxed_slice(),
+
+            time_sensitive_flush_id: None,
+        }
+    }
+
+    pub fn set_time_sensitive(&mut self, flush_id: u32) {
+        self.time_sensitive_flush_id = Some(flush_id);
+    }
+
+    // True for a time-sensitive packet once the flush it was sent for has passed
+    pub fn is_stale(&self, flush_id: u32) -> bool {
+        match self.time_sensitive_flush_id {
+            Some(id) => id != flush_id,
+            None => false,
         }
     }
 
@@ -79,6 +96,15 @@ impl PendingPacket {
 
     pub fn size(&self) -> usize {
         self.data.len()
+    }
+
+    // Gives up on a packet no part of which has been transmitted: all fragments count as
+    // acknowledged and the payload is released. Returns the size of the released payload.
+    pub fn discard(&mut self) -> usize {
+        for flags in self.ack_flags.iter_mut() {
+            *flags = u64::MAX;
+        }
+        std::mem::take(&mut self.data).len()
     }
 
     pub fn datagram<'a>(&'a self, fragment_id: u16) -> frame::DatagramRef<'a> {
